@@ -177,6 +177,25 @@ def dense_family(case, ctx):
     ref = ref + b.reshape(bshape)
   require(close(y, ref), lambda: f'DenseGeneral(axis={axis_arg}, batch_dims='
           f'{tuple(range(nb))}, features={feats}) != einsum {es}')
+  # the NNX layer with the same kernel / bias and the same axes
+  with sut('nnx.LinearGeneral'):
+    nm = nnx.LinearGeneral(
+        tuple(shape[a] for a in axes), feats, axis=axis_arg,
+        batch_axis={i: shape[i] for i in range(nb)},
+        use_bias=case['use_bias'], dtype=jnp.float64,
+        param_dtype=jnp.float64, rngs=nnx.Rngs(0))
+    require(nm.kernel.value.shape == K.shape and (
+        not case['use_bias'] or nm.bias.value.shape == b.shape), lambda:
+            f'nnx.LinearGeneral kernel shape {nm.kernel.value.shape} vs '
+            f'Linen {K.shape}')
+    nm.kernel.value = jnp.asarray(K)
+    if case['use_bias']:
+      nm.bias.value = jnp.asarray(b)
+    yn = nm(x)
+  require(close(yn, ref), lambda: f'nnx.LinearGeneral(axis={axis_arg}, '
+          f'batch_axis={dict((i, shape[i]) for i in range(nb))}, out_features='
+          f'{feats}) on input {shape} != einsum {es} + bias broadcast over '
+          'the free axes')
   ctx.note(labels=['general', f'axes{na}', f'batch{nb}'],
            nontrivial=na >= 2 or len(feats) >= 2 or nb >= 1)
 
